@@ -115,6 +115,8 @@ package kubeeventsmanager
 //@   requires forall(k, string, has(ei.cachedObjects, k) ==> ei.cachedObjects[k] != nil)
 //@   modifies mapof(ei.cachedObjects), fields(ei.cachedObjectsInfo), fields(ei.cachedObjectsIncrement), ei.eventBuf, allelems(kemtypes.KubeEvent), ei.eventCbEnabled, nPut, lastPut, putLog, lastFilterRes, lastFilterErr, nFilter, filterLog
 //@   ensures [kind @C08] nPut > old(nPut) ==> lastPut.WatchEvents[0] == kemtypes.WatchEventAdded
+//@   ensures [every-added-notification-is-handled @C08,C02,C01] !old(ei.stopped) && lastFilterErr == nil ==> has(ei.cachedObjects, resourceId(ite(dyntype(obj, cache.DeletedFinalStateUnknown), obj.(cache.DeletedFinalStateUnknown).Obj, obj).(*unstructured.Unstructured)))
+//@        && ei.cachedObjects[resourceId(ite(dyntype(obj, cache.DeletedFinalStateUnknown), obj.(cache.DeletedFinalStateUnknown).Obj, obj).(*unstructured.Unstructured))] == lastFilterRes
 //@ func (*resourceInformer).OnUpdate
 //@   prop C08
 //@   requires ei.Monitor != nil && ei.cachedObjects != nil && ei.cachedObjectsInfo != nil && ei.cachedObjectsIncrement != nil
